@@ -150,6 +150,7 @@ class Cluster:
         self.next_pid = 1000
         self.reqno = 0
         self.conns = set()
+        self.blackhole = set()   # nodes whose traffic silently disappears (partition, not a crash)
         self.now_ms = lambda: int((self.loop.time()) * 1000)
         # transactions / groups are attached by simtxn / simgroup mixins
         self.txn = None
@@ -188,6 +189,8 @@ class Cluster:
     def on_connect(self, node, host, port):
         if node is None or not node.up:
             return "refuse"
+        if node.id in self.blackhole:
+            return "hang"            # SYN goes nowhere
         return "ok"
 
     def on_accept(self, tr):
@@ -249,8 +252,8 @@ class Cluster:
         while a long-polling Fetch or a JoinGroup sits in purgatory), so a request
         behind an unanswered one waits in the connection's queue."""
         tr = ctx.tr
-        if not tr.server_open or not self.nodes[ctx.node].up:
-            return
+        if not tr.server_open or not self.nodes[ctx.node].up or ctx.node in self.blackhole:
+            return               # (black-holed node: the connection stays open, nothing is ever answered)
         q = tr.__dict__.setdefault("pending_reqs", [])
         if tr.__dict__.get("busy"):
             q.append(ctx)
@@ -314,7 +317,7 @@ class Cluster:
         self._next(tr)
 
     def _deliver(self, ctx, data):
-        if ctx.tr.server_open:
+        if ctx.tr.server_open and ctx.node not in self.blackhole:
             ctx.tr.deliver(data)
 
     # ---- error replies for injected faults -----------------------------------------------
@@ -676,7 +679,8 @@ def _h_Fetch(self, ctx):
         kw["error_code"] = 0
         kw["session_id"] = 0
     resp = R(**kw)
-    if not any_data and req.max_wait_time > 0 and not getattr(ctx, "waited", False):
+    any_err = any(pt[1] != 0 for _t, ps_ in topics for pt in ps_)     # Kafka answers at once when a partition has an error
+    if not any_data and not any_err and req.max_wait_time > 0 and not getattr(ctx, "waited", False):
         # long poll: nothing to return now, answer after max_wait (re-evaluated then)
         ctx.waited = True
         # drop the events logged for the empty attempt
